@@ -17,6 +17,7 @@ def main():
     only = None
     prop = None
     tier = "quick"
+    keep = False  # copy the first shrunk replay of a caught mutant to /verif/replays/<prop>/<mutant>.replay (regression replay)
     a = sys.argv[1:]
     while a:
         x = a.pop(0)
@@ -26,6 +27,8 @@ def main():
             prop = a.pop(0)
         elif x == "--tier":
             tier = a.pop(0)
+        elif x == "--keep":
+            keep = True
     results = []
     for m in MUTANTS:
         if only and only not in m["id"]:
@@ -61,6 +64,14 @@ def main():
                     break
             if r.returncode == 2:
                 detail = r.stdout[-400:].replace("\n", " | ")
+            if keep and r.returncode == 1:
+                import glob
+                import re as _re
+                mm = _re.search(r"VIOLATION property=\S+ replay=(\S+)", r.stdout)
+                if mm and os.path.exists(mm.group(1)):
+                    dst = os.path.join(ROOT, "replays", p)
+                    os.makedirs(dst, exist_ok=True)
+                    shutil.copy(mm.group(1), os.path.join(dst, f"{m['id']}.replay"))
             line = f"{m['id']:42s} {p} {verdict:10s} {wall:6.1f}s  {m['desc']}  {detail}"
             print(line, flush=True)
             results.append(line)
